@@ -2,7 +2,7 @@
    Pinned statements only: each proof is `exact <lemma>` from Proofs/. *)
 From Coq Require Import ZArith Znumtheory List.
 From Strand Require Import Base.ZUtil Generated.Constants Model.Outcome Model.Backend Model.ZBackend
-  Model.Exec Model.Params2048 Proofs.Laws Proofs.ZLaws Proofs.ZInst.
+  Model.Exec Model.Params2048 Proofs.Laws Proofs.ZLaws Proofs.ZInst Proofs.PrimeCerts.
 Open Scope Z_scope.
 
 (* the code's own operations satisfy the laws of a commutative group of exponent q acted on by Z_q
@@ -31,6 +31,17 @@ Print Assumptions C15_P2048_admissible.
 Theorem C15_P2048_safe_prime : prime p2048 -> prime q2048 -> SafePrime P2048.
 Proof. exact safe_P2048. Qed.
 Print Assumptions C15_P2048_safe_prime.
+
+(* ... and one of the two follows from the other (Pocklington step, Base/Pocklington.v, checked by the kernel with the
+   BigZ evaluator): the ONLY unproved number-theoretic hypothesis about the shipped group is [prime q2048]. *)
+Theorem C15_P2048_safe_prime_from_q : prime q2048 -> SafePrime P2048.
+Proof. exact safe_P2048_from_q. Qed.
+Print Assumptions C15_P2048_safe_prime_from_q.
+
+(* the 62-bit execution parameter set is a safe-prime group unconditionally (Pocklington certificates) *)
+Theorem C15_P62_safe_prime : SafePrime (mkP 3404364645881581367).
+Proof. exact P62_safe_prime. Qed.
+Print Assumptions C15_P62_safe_prime.
 
 (* non-vacuity: a concrete parameter set meets the hypotheses *)
 Example C15_nonvacuous : GoodParams (mkP 23) /\ member (mkP 23) 4 /\ member (mkP 23) 1.
